@@ -60,7 +60,7 @@ type HTTPResult struct {
 	Log       int      `json:"log"`
 	Recovers  int      `json:"recovers"`
 	// only with HTTPCase.Record
-	Produced []string `json:"produced,omitempty"` // hex of json.Marshal(response) taken when the executor returned it
+	Produced []string `json:"produced,omitempty"` // hex of json.Marshal(response) taken when the executor returned it ("panic": it panicked instead)
 	CType    string   `json:"ctype,omitempty"`
 	BodyHex  string   `json:"bodyHex,omitempty"`
 }
@@ -84,18 +84,32 @@ func RunHTTP(es graphql.ExecutableSchema, c HTTPCase) HTTPResult {
 	})
 	var produced []string
 	if c.Record {
-		srv.AroundResponses(func(ctx context.Context, next graphql.ResponseHandler) *graphql.Response {
-			r := next(ctx)
-			if r != nil {
-				b, err := json.Marshal(r)
-				if err != nil {
-					b = []byte("MARSHAL-ERROR " + err.Error())
+		// outermost operation middleware: sees every response the transport is handed (also the one-shot error
+		// response of an operation that failed before its first response)
+		srv.AroundOperations(func(ctx context.Context, next graphql.OperationHandler) graphql.ResponseHandler {
+			rh := next(ctx)
+			return func(ctx context.Context) *graphql.Response {
+				defer func() {
+					if e := recover(); e != nil {
+						// the transport turns this into an error response of its own: not recorded here
+						st.mu.Lock()
+						produced = append(produced, "panic")
+						st.mu.Unlock()
+						panic(e)
+					}
+				}()
+				r := rh(ctx)
+				if r != nil {
+					b, err := json.Marshal(r)
+					if err != nil {
+						b = []byte("MARSHAL-ERROR " + err.Error())
+					}
+					st.mu.Lock()
+					produced = append(produced, hex.EncodeToString(b))
+					st.mu.Unlock()
 				}
-				st.mu.Lock()
-				produced = append(produced, hex.EncodeToString(b))
-				st.mu.Unlock()
+				return r
 			}
-			return r
 		})
 	}
 	before := gqlgenGoroutines()
